@@ -24,7 +24,9 @@ SHARDS = {"quick": 8, "thorough": 16}
 EXHAUSTIVE = {"quick": False, "thorough": False}
 RULE = ("cases = (list of chunks 1..256 bytes, 'no data' events with select "
         "ready/not-ready between them, write attempts by the host between "
-        "reads incl. ones failing with EPIPE, EOF); hypothesis-generated, thorough "
+        "reads incl. ones failing with EPIPE, EOF); also streams of 320..700 short "
+        "lines (4..9 KiB) cut by a cyclic list of sizes, and two devices alive at "
+        "once read in a generated interleaving; hypothesis-generated, thorough "
         "adds every stream of length<=7 over {a,\\n} x every composition into "
         "chunks x {no wait, wait-not-ready, wait-ready} before each chunk and "
         "an atheris campaign; non-trivial = a line spanning >=3 chunks, or >=2 "
@@ -130,6 +132,9 @@ class _FakeSocket:
 
 
 class _FakeSelector:
+    def __init__(self, *a, **k):
+        self._s = _FakeSocket.script      # the device being connected right now
+
     def register(self, *a, **k):
         pass
 
@@ -137,7 +142,7 @@ class _FakeSelector:
         pass
 
     def select(self, timeout=None):
-        return _FakeSocket.script.select(timeout)
+        return self._s.select(timeout)
 
     def close(self):
         pass
@@ -262,7 +267,10 @@ def to_events(case):
 
 
 def replay(case):
-    oracle(to_events(case))
+    if isinstance(case, dict):
+        run_two_devices(to_events(case["a"]), to_events(case["b"]), case["order"])
+    else:
+        oracle(to_events(case))
 
 
 # ---------------------------------------------------------------------------
@@ -300,6 +308,71 @@ def strategy():
     )
     return st.lists(ev, min_size=0, max_size=30).map(
         lambda l: [list(e) for e in l])
+
+
+def long_events(t):
+    """A stream of several KiB of short lines, cut by a cyclic list of sizes."""
+    nlines, sizes, tail = t
+    stream = b"".join(b"ok T:%d /210\n" % (200 + i % 37) for i in range(nlines)) + tail
+    events, pos, i = [], 0, 0
+    while pos < len(stream):
+        n = sizes[i % len(sizes)]
+        events.append(["d", stream[pos:pos + n]])
+        pos += n
+        i += 1
+    return events
+
+
+def long_strategy():
+    from hypothesis import strategies as st
+    return st.tuples(st.integers(320, 700),
+                     st.lists(st.one_of(st.integers(1, 256), st.sampled_from([256, 255, 200, 13])),
+                              min_size=3, max_size=40),
+                     st.sampled_from([b"", b"tail", b"T:2"])).map(long_events)
+
+
+def run_two_devices(events_a, events_b, order):
+    """Two Device objects alive at once, each on its own scripted socket, read in
+    the interleaving `order` (True = A reads next): neither may see the other's
+    bytes or lose its own."""
+    from gscrib.printrun import device as devmod
+    out = {}
+    with mock.patch.object(devmod.socket, "socket", _FakeSocket), \
+            mock.patch.object(devmod.selectors, "DefaultSelector", _FakeSelector):
+        devs = []
+        for ev in (events_a, events_b):
+            script = _Script([e for e in ev if e[0] != "x"])
+            _FakeSocket.script = script
+            dev = devmod.Device()
+            dev.connect("127.0.0.1:8000")
+            devs.append((dev, script, []))
+        done = [False, False]
+        turn = 0
+        budget = 4 * (len(events_a) + len(events_b)) + 40 + sum(
+            v.count(b"\n") for ev in (events_a, events_b) for k, v in ev if k == "d")
+        while not all(done) and budget > 0:
+            budget -= 1
+            i = 0 if (order[turn % len(order)] if order else True) else 1
+            turn += 1
+            if done[i]:
+                i = 1 - i
+            dev, script, res = devs[i]
+            r = dev.readline()
+            if r is None:
+                done[i] = True
+            else:
+                res.append(r)
+        for name, (dev, script, res), ev in zip("AB", devs, (events_a, events_b)):
+            stream = b"".join(v for k, v in ev if k == "d")
+            got = b"".join(x for x in res if x)
+            if got != stream:
+                raise Violation(f"two devices alive: device {name} returned {got[:120]!r}..., its "
+                                f"socket delivered {stream[:120]!r}... ({len(got)} vs {len(stream)} bytes)")
+            nonempty = [x for x in res if x]
+            for x in nonempty[:-1]:
+                if x.count(b"\n") != 1 or not x.endswith(b"\n"):
+                    raise Violation(f"two devices alive: device {name} returned {x!r}")
+    return True
 
 
 def _exhaustive(ctx, maxlen):
@@ -349,6 +422,28 @@ def run_shard(ctx):
                  classes=cl, steps=len(events))
 
     run_hypothesis(ctx, strategy(), body, n)
+
+    # streams of several KiB (buffers that are compacted lazily, offsets that
+    # must survive it)
+    def body_long(case):
+        events = to_events(case)
+        oracle(events)
+        ctx.case(case, nontrivial=True, classes=["stream_of_several_KiB"], steps=len(events))
+
+    run_hypothesis(ctx, long_strategy(), body_long, 10 if ctx.tier == "quick" else 400,
+                   sub="long")
+
+    # two devices alive at once, read in a generated interleaving
+    def body_two(case):
+        run_two_devices(to_events(case["a"]), to_events(case["b"]), case["order"])
+        ctx.case(case, nontrivial=len(case["a"]) > 1 and len(case["b"]) > 1,
+                 classes=["two_devices_alive"], steps=len(case["a"]) + len(case["b"]))
+
+    from hypothesis import strategies as st
+    run_hypothesis(ctx, st.fixed_dictionaries({
+        "a": strategy(), "b": strategy(),
+        "order": st.lists(st.booleans(), min_size=1, max_size=12)}), body_two,
+        150 if ctx.tier == "quick" else 6000, sub="two")
     _exhaustive(ctx, 5 if ctx.tier == "quick" else 7)
     if ctx.shard == 0:
         real_socket_tier(ctx, 6 if ctx.tier == "quick" else 60)
